@@ -28,7 +28,8 @@ RULE = ('three workloads. (twin) two worlds are driven through the same '
         'iterated twice. (onupdate) OnUpdateProcessor with 0-4 listeners and '
         'dt tokens of several types. Non-trivial = a shorthand used on an '
         'entity with a pending deletion or after a replacement; a prototype '
-        'where >=2 sources compete for a type; >=2 on_update listeners.')
+        'where >=2 sources compete for a type; >=2 on_update listeners.'
+        ' Round 13 added: an init_methods entry that raises.')
 ANCHORS = [
     'desper/logic/__init__.py::add_component',
     'desper/logic/__init__.py::remove_component',
